@@ -61,6 +61,7 @@ fn main() {
         Some("digest") => digest(&args[1..]),
         Some("mem") => mem::run(&args[1..]),
         Some("mem-threads") => mem::threads(&args[1..]),
+        Some("mem-corners") => mem::corners(&args[1..]),
         Some("min") => {
             let s = std::fs::read_to_string(&args[1]).unwrap();
             let j = json::J::parse(&s).unwrap();
